@@ -34,6 +34,7 @@ PROFILE = {
     "feat": gen.swarm_feat,
     "edits": ["var", "ver", "lit", "comment", "unrelated"],
     "n": (3, 8),
+    "locations": ["package", "package", "package", "main", "notebook"],
     "p_restart": 0.5,
     "stores": ("local", "local", "local+cache", "memory"),
 }
